@@ -455,6 +455,43 @@ func Families(d *Doc) map[string]int {
 			}
 		}
 	}
+	// one rate (category, written country, key, percentage, surcharge, extension content) under
+	// more than one spelling of the same extension content (nothing.go)
+	type rk struct {
+		cat, country, key, ext string
+		pct, sur               Amt
+		hasP, hasS             bool
+	}
+	spellings := map[rk]map[string]bool{}
+	norm := func(a *Amt) (Amt, bool) {
+		if a == nil {
+			return Amt{}, false
+		}
+		n := *a
+		for n.E > 0 && n.V%10 == 0 {
+			n = Amt{n.V / 10, n.E - 1}
+		}
+		return n, true
+	}
+	for _, ts := range rowTaxes(d) {
+		for _, cb := range *ts {
+			if cb.ExtNone != "" {
+				out["extensions-spelling:"+cb.ExtNone]++
+			}
+			k := rk{cat: cb.Cat, country: WrittenCountry(d.Country, cb.Country), key: cb.Key, ext: ExtText(combos([]Combo{{Cat: cb.Cat, Ext: cb.Ext}})[0].Ext)}
+			k.pct, k.hasP = norm(cb.Percent)
+			k.sur, k.hasS = norm(cb.Surcharge)
+			if spellings[k] == nil {
+				spellings[k] = map[string]bool{}
+			}
+			spellings[k][cb.ExtNone] = true
+		}
+	}
+	for _, m := range spellings {
+		if len(m) > 1 {
+			out["one-rate-under-several-spellings-of-its-extensions"]++
+		}
+	}
 	for _, m := range pcs {
 		if len(m) > 1 {
 			out["rate-key-with-issuer-percentages:distinct>1"]++
